@@ -72,7 +72,7 @@ theorem C16_cmap_pref (subs : List CmapSub) :
     have a glyph in the chosen cmap subtable (after mirroring / vertical-form rotation, `rotCp`):
     the result is, character by character (`glyphOf`), the cmap glyph with the input cluster and
       horizontally  x_advance = hmtx advance (units-per-em without hmtx), y_advance = 0, offsets 0;
-      vertically    x_advance = 0, y_advance = −(vmtx advance, or ascender − descender in i16),
+      vertically    x_advance = 0, y_advance = −(vmtx advance, or ascender − descender),
                     x_offset = −(h_advance / 2), y_offset = −(VORG origin, or the ascender);
     in logical order for LTR / TTB and in reverse order for RTL / BTT. -/
 theorem C16_default (u : Ucd) (f : Font) (c : Cfg) (text : List (Nat × Nat))
